@@ -19,7 +19,7 @@ DEFAULT_PROFILE_KNOBS = dict(
     blocklist_p=0.2,
     lambda_p=0.05,
     B=(2, 60),
-    tf_limits=[(0.5, 2.0), (0.5, 2.0), (0.7, 1.5), (0.2, 5.0)],
+    tf_limits=[(0.5, 2.0), (0.5, 2.0), (0.7, 1.5), (0.2, 5.0), (0, 100.0), (0.0, 2.0)],  # 0 is a legal (and falsy) limit
     agg_subset=True,
     always_unit=False,
     always_state=False,
